@@ -425,6 +425,7 @@ type row struct {
 	Fresh     bool              `json:"fresh"`
 	Once      string            `json:"once,omitempty"`
 	Line      int               `json:"line"`
+	Callee    string            `json:"callee,omitempty"` // method of the foreign container a `Field.*` row stands for
 	seq       int
 	loops     []int
 	rel       string
@@ -1138,9 +1139,13 @@ func (a *analyzer) evalMethodCall(f *ast.SelectorExpr, call *ast.CallExpr) []*va
 func (a *analyzer) container(obj, m string, call *ast.CallExpr) {
 	switch {
 	case containerReaders[m]:
-		a.emit(obj+".*", "read", false)
+		if r := a.emit(obj+".*", "read", false); r != nil {
+			r.Callee = m
+		}
 	case containerWriters[m]:
-		a.emit(obj+".*", "write", false)
+		if r := a.emit(obj+".*", "write", false); r != nil {
+			r.Callee = m
+		}
 	default:
 		a.unclassified(call, "method "+m+" of a foreign container is in neither the reader nor the writer table")
 	}
@@ -1766,6 +1771,7 @@ func main() {
 		Rows      []*row             `json:"rows"`
 		Unreached []string           `json:"unreached"`
 		Problems  []string           `json:"problems"`
+		Inner     *innerOut          `json:"inner"`
 	}{Types: map[string]typeOut{}}
 	reachedAll := map[string]map[string]bool{}
 	for _, t := range targets {
@@ -1876,6 +1882,7 @@ func main() {
 		}
 	}
 	out.Rows = rows
+	out.Inner = runInner(*repo, rows)
 	enc := json.NewEncoder(os.Stdout)
 	enc.SetIndent("", " ")
 	_ = enc.Encode(out)
